@@ -158,6 +158,14 @@ Definition g_bootstrap_sample (c : config) (gf : gscores -> gscores) (gs : gscor
 
 End WithArgsort.
 
+(* single-pass flag of a resolved method *)
+Definition is_sp (m : method) : bool := match m with MSinglePass => true | _ => false end.
+
+(* NumPy's contract for np.argsort: it returns a permutation of the positions that sorts the array
+   (nothing is promised about the order of ties) *)
+Definition argsort_ok (argsort : list Q -> list nat) : Prop :=
+  (forall l, Permutation (argsort l) (seq 0 (length l))) /\ (forall l, sorted (take_nat 0 l (argsort l))).
+
 (* per-group counting *)
 Definition has_label (g : G) (p : Q * G) : bool := Z.eqb (snd p) g.
 Definition group_count (g : G) (gs : gscores) : Z :=
